@@ -107,6 +107,12 @@ def as_variant(g, rng, kinds=VARIANT_KINDS):
     return v, form
 
 
+def canon_adj(enc):
+    """adjacency rows sorted by neighbour id: the property does not speak of neighbour order"""
+    multi, nodes, adj = enc
+    return [multi, nodes, [[n, sorted(row, key=lambda e: e[0])] for n, row in adj]]
+
+
 def bridge_case(g, ignore_aam, name, tags, form_rng=None, form_kinds=VARIANT_KINDS):
     """`form_rng`: graph_to_mol receives the graph in another FORM (common.input_variant); request and oracles are
     those of the plain graph"""
@@ -138,7 +144,7 @@ def bridge_case(g, ignore_aam, name, tags, form_rng=None, form_kinds=VARIANT_KIN
     if any(a == 1 for a in aams):
         t.append("has-map-1")
     key = hashlib.blake2b((sx(req) + str(form)).encode(), digest_size=8).hexdigest() if g.number_of_edges() else None
-    return Case(req, enc_graph(out) if isinstance(out, nx.Graph) else out, in_domain=in_domain,
+    return Case(req, canon_adj(enc_graph(out)) if isinstance(out, nx.Graph) else out, in_domain=in_domain,
                 meta={"name": name, "self_loops": loops, "variant": form}, nontrivial_key=key, tags=t)
 
 
